@@ -181,6 +181,21 @@ type FilterRT struct {
 	Cfg        *oidcv1.OIDCConfig // the loaded (merged) configuration object of this filter
 }
 
+// ParseAuth / Authorize: the provider's judgement of an authorization request sent by this filter (its own redirect
+// URI and scopes, the provider's client id).
+func (f *FilterRT) ParseAuth(loc string) *AuthReq {
+	return f.IdP.parseAuthAs(loc, f.Spec.CallbackURI(), f.scopesOrEmpty())
+}
+func (f *FilterRT) Authorize(loc string, browser int) *AuthReq {
+	return f.IdP.AuthorizeAs(loc, browser, f.Spec.CallbackURI(), f.scopesOrEmpty())
+}
+func (f *FilterRT) scopesOrEmpty() []string {
+	if f.Spec.Scopes == nil {
+		return []string{}
+	}
+	return f.Spec.Scopes
+}
+
 type Replica struct {
 	cfgFile  *internal.LocalConfigFile
 	cfg      *configv1.Config
